@@ -5,7 +5,11 @@
 //   ids : the neighbour list of every sample, exactly as returned
 //   raw : cover tree only — the candidate sets returned by CoverTreeWrapper::k_nearest_neighbor (entry 0 = the
 //         query point), obtained by repeating the first half of find_neighbors_covertree_impl on the same inputs;
-//         optional `tree=` dump of the cover tree for the well-formedness certificate (dump=1)
+//         optional `tree=` dump of the cover tree for the well-formedness certificate (dump=1), followed by the values
+//         of the two floating-point scale functions the construction is scheduled by (parameters of the Lean model
+//         of batch_create): `gs=<d>/<get_scale(d)>,..` for every distinct positive distance between two samples (the
+//         only arguments batch_insert can pass) and `ds=<s>/<dist_of_scale(s)>,..` for every scale from three below
+//         the smallest to one above the largest of them
 #include "knn_common.hpp"
 
 using namespace tapkee;
@@ -48,6 +52,32 @@ static std::string cover_raw(vk::It begin, vk::It end, Callback callback, IndexT
     {
         out += " tree=";
         dump_node(ct, begin, out);
+        std::vector<ScalarType> ds;
+        for (int i = 0; i < points.index; ++i)
+            for (int j = 0; j < points.index; ++j)
+                if (i != j)
+                {
+                    ScalarType d = distance(callback, points[i], points[j], std::numeric_limits<ScalarType>::max());
+                    if (d > 0)
+                        ds.push_back(d);
+                }
+        std::sort(ds.begin(), ds.end());
+        ds.erase(std::unique(ds.begin(), ds.end()), ds.end());
+        out += " gs=";
+        int lo = 0, hi = -1;
+        for (size_t i = 0; i < ds.size(); ++i)
+        {
+            int s = cover_tree.get_scale(ds[i]);
+            if (i == 0 || s < lo)
+                lo = s;
+            if (i == 0 || s > hi)
+                hi = s;
+            out += vh::num(ds[i]) + "/" + std::to_string(s) + ",";
+        }
+        out += " ds=";
+        if (!ds.empty())
+            for (int s = lo - 3; s <= hi + 1; ++s)
+                out += std::to_string(s) + "/" + vh::num(cover_tree.dist_of_scale(s)) + ",";
     }
     return out;
 }
